@@ -353,6 +353,12 @@ pub fn boundary_table() -> Vec<String> {
             v.push(format!("0{x:X}X"));
         }
     }
+    // what may follow a number whose HEX reading overflows (defect F-K: a `.` fraction was eaten)
+    for head in ["18446744073709551616", "18446744073709551615", "99999999999999999999", "0ffffffffffffffffffff", "12345678901234567"] {
+        for tail in [".b", ".b=1", ".8x", ".x", ".bx", ".e5", ".5", "p5", ".", ".a.b", "..b", ".bq"] {
+            v.push(format!("{head}{tail}"));
+        }
+    }
     for n in [15, 16, 17, 18, 20] {
         v.push(format!("{}x", "f".repeat(n).replacen('f', "9", 1)));
         v.push(format!("0{}x", "F".repeat(n)));
